@@ -74,9 +74,12 @@ class Opaque(Kind):
 class Ref(Kind):
     """Heap reference.  target is one of ListT(elem), DictT(k, v), ObjT(cls), IterT(elem)."""
 
-    def __init__(self, target):
+    optional = False
+
+    def __init__(self, target, optional=False):
         self.target = target
         self.name = target.name
+        self.optional = optional
 
     def sort(self):
         return z3.IntSort()
@@ -196,6 +199,11 @@ def _split_top(s: str) -> list[str]:
 
 def parse_kind(s: str, opaque_names: set[str] | None = None) -> Kind:
     s = s.strip()
+    if s.endswith("?"):
+        k = parse_kind(s[:-1], opaque_names)
+        if isinstance(k, Ref):
+            k.optional = True
+        return k
     if s in _PRIMS:
         return _PRIMS[s]
     if s.startswith("~"):
